@@ -95,9 +95,9 @@ impl Display for Variant<'_> {
             Self::Variable(variable, _) => write!(f, "{variable}"),
             Self::Lambda(variable, implicit, domain, body) => {
                 if *implicit {
-                    write!(f, "{{{variable} : {domain}}} => {body}")
+                    write!(f, "{{{variable} : {}}} => {body}", annotation(domain))
                 } else {
-                    write!(f, "({variable} : {domain}) => {body}")
+                    write!(f, "({variable} : {}) => {body}", annotation(domain))
                 }
             }
             Self::Pi(variable, implicit, domain, codomain) => {
@@ -106,9 +106,9 @@ impl Display for Variant<'_> {
 
                 if variables.contains(&0) {
                     if *implicit {
-                        write!(f, "{{{variable} : {domain}}} -> {codomain}")
+                        write!(f, "{{{variable} : {}}} -> {codomain}", annotation(domain))
                     } else {
-                        write!(f, "({variable} : {domain}) -> {codomain}")
+                        write!(f, "({variable} : {}) -> {codomain}", annotation(domain))
                     }
                 } else if *implicit {
                     write!(f, "{{{domain}}} -> {codomain}")
@@ -196,6 +196,24 @@ fn group(term: &Term) -> String {
         | Variant::GreaterThan(_, _)
         | Variant::GreaterThanOrEqualTo(_, _)
         | Variant::If(_, _, _) => format!("({term})"),
+    }
+}
+
+// Convert the type annotation of a bound variable to a string. A group of definitions needs
+// surrounding parentheses there, because its first colon would otherwise be read as the one that
+// separates the variable from its type.
+fn annotation(term: &Term) -> String {
+    match &term.variant {
+        Variant::Unifier(subterm, _) => {
+            // We `clone` the borrowed `subterm` to avoid holding the dynamic borrow for too long.
+            if let Some(subterm) = { subterm.borrow().clone() } {
+                annotation(&subterm)
+            } else {
+                format!("{term}")
+            }
+        }
+        Variant::Let(_, _) => format!("({term})"),
+        _ => format!("{term}"),
     }
 }
 
